@@ -10,7 +10,7 @@ DTYPES = {"int": np.int64, "float": float, "uint8": np.uint8, "bool": bool, "int
 DTYPE_NAMES = ["int", "float", "uint8", "bool", "int32", "float32"]
 
 
-def relayout(A, key=None):
+def relayout(A, key=None, readonly=False):
     """The same array values in one of the memory layouts a caller may hand over: C order (half of the cases), Fortran
     order, or a strided view into a larger buffer that is otherwise filled with ones.  The choice is a function of the
     array content (so a stored case replays identically).  Always writable."""
@@ -19,6 +19,10 @@ def relayout(A, key=None):
         return A
     if key is None:
         key = int(np.count_nonzero(A)) + 3 * A.shape[0] + int(np.count_nonzero(A[0] if A.ndim == 2 else A[:1]))
+    if readonly and key % 8 == 5:
+        B = A.copy()
+        B.setflags(write=False)          # e.g. a memory-mapped file, np.broadcast_to, a pandas copy-on-write block
+        return B
     k = key % 4
     if k < 2:
         return A
@@ -82,7 +86,7 @@ def npints(values, key, narrow=False):
 
 def to_np(rows, dtype="int"):
     """0/1 adjacency in any of the dtypes - and memory layouts - a caller may reasonably use for a 0/1 matrix."""
-    return relayout(G.matrix_from_rows(rows, dtype=DTYPES.get(dtype, dtype)))
+    return relayout(G.matrix_from_rows(rows, dtype=DTYPES.get(dtype, dtype)), readonly=True)
 
 
 def case_graph(case, key="A"):
